@@ -11,7 +11,11 @@ BATCH = 60
 BUDGET_S = {'quick': 90, 'thorough': 1500}
 RULE = ('single dense datasets (with/without features, curated or not, ids without spikes, unit factors 1 and '
         '2.5, two conversions by one creator object with different unit factors (incl. 2.34375e-06 x 2^k), neighbourhood sizes smaller and larger than the probe, 1..2 probes in the probe table, distance '
-        'ties) and datasets merged from 1..4 probes with permuted channel maps, each converted with the real '
+        'ties; permuted channel maps whose probe labels follow the map: channels.rawInd judged against the closed form raw - (largest raw '
+        'index of the previous probe + 1)) and datasets merged from 1..4 probes with permuted channel maps and EXACTLY REPRESENTABLE '
+        'value tokens per probe (integer template samples with a per-probe peak value, dyadic amplitudes, power-of-two diagonal whitening): '
+        'waveforms, amplitudes, depths and durations of merged sources are judged like those of single datasets; a label on about a third '
+        'of all exports (single, merged, two-exports); each converted with the real '
         'EphysAlfCreator. non-trivial = every case; merged cases with >= 3 probes are forced first')
 ASSUMPTIONS = ['amplitude chain / durations / feature depths are the exact-arithmetic C09 model; float32 outputs compared '
                'with relative tolerance 1e-6, float64 multi-step chains with 1e-9',
@@ -95,8 +99,9 @@ def model_query(case, impl_res):
         rows = _find(ok, fam + '.waveformsChannels', label)
         qs.append(dict(p=PID, op='nearest', positions=pos, probes=sm['channel_probes'], peaks=peaks, ncw=ncw,
                        impl=rows['vals'] if rows else None))
-    if case.get('probes'):
-        # merged datasets: only the index bookkeeping and the geometry are judged (see judge)
+    if case.get('probes') and not case.get('exact_tokens'):
+        # merged datasets with the LARGE tokens of merge_common (replayed older corpus cases): only the index bookkeeping
+        # and the geometry are judged (see judge); generated merged cases carry exactly representable tokens
         return dict(p=PID, op='multi', qs=qs)
     amps = DC.fracs(sm['amplitudes'])
     wmi = DC.fracs(sm['wmi'])
@@ -208,12 +213,20 @@ def judge(case, impl_res, ans):
     if case.get('probes'):
         if res[0]['model'] != res[0]['spec']:
             return 'MACHINERY: Lean rawInd model differs from its spec (contradicts the theorem)'
+        if res[0]['ordered'] is not True or res[0]['per_probe'] != res[0]['spec']:
+            return ('MACHINERY: a merged probe table is not in channel-map order / its per-probe re-expression is not the '
+                    'original maps (contradicts merged_probes_ordered)')
         if raw['vals'] != res[0]['spec']:
             return 'SPEC: channels.rawInd %s does not give back each probe\'s original channel map %s' % (raw['vals'], res[0]['spec'])
+    elif res[0]['ordered'] != res[0]['nonneg'] or res[0]['per_probe'] != res[0]['model']:
+        return ('MACHINERY: probe table in channel-map order <-> no negative raw index, or model = closed form, does not hold '
+                'on the model (contradicts rawInd_nonneg_iff_ordered / rawInd_per_probe)')
+    elif res[0]['ordered'] and raw['vals'] != res[0]['per_probe']:
+        # judged against the SPEC (closed form in the statement's words), not against the mirror of the loop
+        return ('SPEC: channels.rawInd %s is not the raw index re-expressed per probe (raw index - (largest raw index of the '
+                'previous probe + 1)) %s; largest raw index per label %s' % (raw['vals'], res[0]['per_probe'], res[0]['probe_max']))
     elif raw['vals'] != res[0]['model']:
         return 'CORR: channels.rawInd differs from the model'
-    elif res[0]['ordered'] != res[0]['nonneg']:
-        return 'MACHINERY: probe table in channel-map order <-> no negative raw index does not hold on the model'
     raw_finding = None
     if not case.get('probes') and not res[0]['ordered']:
         # a SINGLE dataset whose probe labels are not non-decreasing along the channel map (never the output of a merge):
@@ -230,8 +243,7 @@ def judge(case, impl_res, ans):
         if res[i].get('impl_peak_first') is False:
             return 'MACHINERY: rows accepted by nearestOK do not start with the peak channel (contradicts nearestOK_peak_first)'
     if case.get('probes'):
-        # merged datasets carry large token values whose float32 template storage is not exact: only the
-        # index bookkeeping (raw indices, listed channels) and the geometry are claimed on them
+        # geometry of a merged source (depths are read from it)
         exp_pos, xoff = [], 0.
         for pr in case['probes']:
             xs = [xy[0] + xoff for xy in pr['channel_positions']]
@@ -241,7 +253,25 @@ def judge(case, impl_res, ans):
         if sm['channel_positions'] != exp_pos or lc is None or lc['vals'] != exp_pos:
             return ('SPEC: channel positions of the merged source / of the export are not the probes\' positions translated '
                     'along x (depths are read from them): %s vs %s' % ((lc or {}).get('vals'), exp_pos))
-        return None
+        if not case.get('exact_tokens'):
+            # large merge_common tokens (float32 template storage not exact): index bookkeeping and geometry only
+            return None
+        # exactly representable tokens per probe (see `_exact_tokens`): the VALUES of the merged source are judged below
+        # like those of a single dataset. Its arrays are those of the loaded merged model (that the merge itself is right
+        # is C11/C12's); what IS checked here: the inverse whitening matrix is the exact block-diagonal inverse of the
+        # probes' matrices, and the stored amplitudes are the probes' amplitudes
+        n_all = sum(pr['n_channels'] for pr in case['probes'])
+        exp_wmi = [[0.] * n_all for _ in range(n_all)]
+        o = 0
+        for pr in case['probes']:
+            for c in range(pr['n_channels']):
+                # (a whitening matrix missing in ONE probe: the merge writes none at all, C12 -> identity)
+                exp_wmi[o + c][o + c] = 1. / pr['whitening'][c][c] if all(q.get('whitening') for q in case['probes']) else 1.
+            o += pr['n_channels']
+        if sm['wmi'] != exp_wmi:
+            return "SPEC: the inverse whitening matrix of the merged source %s is not the block-diagonal inverse of the probes' matrices %s" % (sm['wmi'], exp_wmi)
+        if sorted(sm['amplitudes']) != sorted(a for pr in case['probes'] for a in pr['amplitudes']):
+            return "SPEC: the amplitudes of the merged source are not the probes' stored amplitudes"
     # 2a. the source arrays are the stored ones (templates, amplitudes, assignments as written to disk)
     spec_ = case.get('spec')
     if spec_ is not None:
@@ -312,6 +342,9 @@ def judge(case, impl_res, ans):
         return 'SPEC: clusters.depths %s are not the depths of the peak channels (NaN exactly for ids without spikes) %s' % (cd and cd['vals'], exp_cd)
     sd = _find(ok, 'spikes.depths', label)
     exp_sd = [DC.to_float(x) for x in res[I_DEP]['spike_depths']]
+    if case.get('probes') and sm['has_features']:
+        # (a merged source with a feature store: its feature rows are not an input of this check)
+        return raw_finding
     if sd is None or sd['shape'] != [len(sm['spike_clusters'])] or not _close(sd['vals'], exp_sd, 1e-6):
         return 'SPEC: spikes.depths differ from %s' % (
             'the feature-weighted channel depths (NaN where no positive weight)' if res[I_DEP]['from_features']
@@ -328,6 +361,8 @@ def tally(rep, case, impl_res, ans):
         rep.count('positions_dtype:' + (case['spec'].get('dtypes') or {}).get('channel_positions', 'float64'))
     if case.get('probes'):
         rep.count('merged_probes:%d' % len(case['probes']))
+        rep.count('merged source: ' + ('VALUES judged (exact tokens per probe): waveforms, amps, depths, durations'
+                                       if case.get('exact_tokens') else 'indices and geometry only (large tokens)'))
         if any(sorted(p['channel_map']) != list(range(len(p['channel_map']))) for p in case['probes']):
             rep.count('merged_with_gapped_maps')
     else:
@@ -368,11 +403,31 @@ def shrink(case):
             yield dict(case, probes=P[:i] + P[i + 1:])
 
 
+def _exact_tokens(rng, probes):
+    """Replace the value tokens of merge_common (k*1000+i+.1 amplitudes, k*10000.. whitening, large template cells:
+    not exact in float32 / through a matrix inverse) by EXACTLY REPRESENTABLE ones that still tell the probes apart:
+    small integer template samples with a per-probe peak value, dyadic amplitudes, a diagonal whitening matrix of
+    powers of two (its inverse, and the inverse of the merged block-diagonal matrix, are exact). Every float chain of the
+    export then stays inside the exact-arithmetic domain the single datasets are judged in."""
+    for k, pr in enumerate(probes):
+        nc, nt, nsw = pr['n_channels'], len(pr['templates']), len(pr['templates'][0])
+        T = [[[float(rng.randrange(-3, 4)) for _ in range(nc)] for _ in range(nsw)] for _ in range(nt)]
+        for t in range(nt):
+            pc, hi = rng.randrange(nc), rng.randrange(nsw)
+            T[t][hi][pc] = float(8 + k)                    # per-probe token: the peak value
+            T[t][(hi + 1 + rng.randrange(nsw - 1)) % nsw][pc] = -float(4 + t % 3)
+        pr['templates'] = T
+        pr['amplitudes'] = [float(2 * (k + 1)) + .25 * (i % 8) for i in range(len(pr['amplitudes']))]
+        if pr.get('whitening') is not None:
+            pr['whitening'] = [[(rng.pick([.5, 1., 2., 4.]) if i == j else 0.) for j in range(nc)] for i in range(nc)]
+    return probes
+
+
 def gen(tier, rng):
     q = tier == 'quick'
-    for ncs in ((4, 6, 5), (2, 3, 5, 2), (3, 3)):
+    for j, ncs in enumerate(((4, 6, 5), (2, 3, 5, 2), (3, 3))):
         probes = [M.probe_spec(rng, k, nc=nc, nt=2 + k % 2, tdtype='uint64', idtype='uint32') for k, nc in enumerate(ncs)]
-        yield dict(p=PID, probes=probes, factor=1)
+        yield dict(p=PID, probes=_exact_tokens(rng, probes), exact_tokens=True, factor=[1, 2.5, 1][j], label=['', 'probe01', ''][j])
     # one creator object, two conversions in a row with different unit factors
     pairs = [(1, 2.34375e-06), (2.5, 0.5), (1, 0.5), (2.34375e-06, 1), (1, 2.34375e-06 * 4), (0.5, 2.34375e-06 * 2 ** 10)]
     for i in range(12 if q else 200):
@@ -380,7 +435,8 @@ def gen(tier, rng):
         f1, f2 = pairs[i % len(pairs)]
         if i % 4 == 2:
             A.subset_features(rng, spec)
-        yield dict(p=PID, spec=spec, twice=True, factor_first=f1, factor=f2, n_closest=rng.pick([2, 3, 12]), rs=i)
+        yield dict(p=PID, spec=spec, twice=True, factor_first=f1, factor=f2, n_closest=rng.pick([2, 3, 12]), rs=i,
+                   label=['', 'imec0'][i % 3 == 1])
     for i in range(90 if q else 2000):
         if i % 3 == 0:
             # every other merged case uses channel maps with holes (dead channels): the raw-index inversion
@@ -390,16 +446,24 @@ def gen(tier, rng):
                 # every probe gets two distinct x coordinates (single-column probes are C12's open finding)
                 if len({xy[0] for xy in pr['channel_positions']}) == 1:
                     pr['channel_positions'][0][0] += 50.
-            yield dict(p=PID, probes=c['probes'], dirnames=c['dirnames'], factor=[1, 2.5][i % 2], n_closest=rng.pick([2, 3, 12]))
+            yield dict(p=PID, probes=_exact_tokens(rng, c['probes']), exact_tokens=True, dirnames=c['dirnames'], factor=[1, 2.5][i % 2],
+                       n_closest=rng.pick([2, 3, 12]), label=['', 'probe00', ''][(i // 3) % 3])
         else:
             spec = DC.dense_spec(rng, raw=(i % 4 == 1), feats=(i % 2 == 0), probes=(i % 5 == 0), empty=['none', 'last', 'middle'][i % 3],
                                  cmap=['random', 'identity'][i % 2])
             if spec.get('channel_probes') and i % 10 == 5:
                 # probe labels that are neither 0-based nor sorted into blocks (interleaved shanks of two probes)
                 spec['channel_probes'] = [rng.pick([1, 3]) for _ in range(spec['n_channels'])]
+            elif spec.get('channel_probes') and i % 10 == 0 and spec['channel_map'] != sorted(spec['channel_map']):
+                # a PERMUTED channel map whose probe labels nevertheless follow it (every probe owns a range of raw indices;
+                # labels not 0-based): the class on which the per-probe re-expression is claimed and judged (`perProbeRawInd`)
+                order = sorted(range(spec['n_channels']), key=lambda c: spec['channel_map'][c])
+                labs = sorted(2 * x + 1 for x in spec['channel_probes'])
+                spec['channel_probes'] = [labs[order.index(c)] for c in range(spec['n_channels'])]
             if i % 3 == 1:     # probe coordinates stored as integers
                 spec['dtypes'] = dict(spec.get('dtypes') or {}, channel_positions=['int32', 'uint32', 'int64', 'uint16'][(i // 3) % 4])
             if i % 8 == 2:     # features stored for a subset of the spikes (pc_feature_spike_ids.npy)
                 A.subset_features(rng, spec)
-            yield dict(p=PID, spec=spec, factor=[1, 2.5][i % 2], label=['', 'probe00'][i % 7 == 0], n_closest=rng.pick([2, 3, 12]), reexport=(i % 4 == 1 and i % 7 != 0),
+            yield dict(p=PID, spec=spec, factor=[1, 2.5][i % 2], label=['', 'probe00', 'imec1'][(i % 7 == 0) + 2 * (i % 7 in (3, 5))], n_closest=rng.pick([2, 3, 12]),
+                       reexport=(i % 4 == 1 and i % 7 not in (0, 3, 5)),
                        rs=i)
